@@ -7,6 +7,7 @@
      Start(s)      light.NewClient on an empty store (initializeWithTrustOptions +
                    compareFirstHeaderWithWitnesses) with reply schedule s
      Verify(h, s)  Client.VerifyLightBlockAtHeight(h, now) with reply schedule s
+     UpdateStep(s) Client.Update(now)
      Tick          local time moves past the expiry of the early headers
 
    The schedule s (a permutation of the witness names) is the order in which the
@@ -23,7 +24,8 @@ CONSTANTS
   PrimaryPersonas, WitnessPersonas,   \* sets of persona names
   Modes,           \* subset of {"skip", "seq"}
   Roots,           \* trust-root heights
-  Nows             \* values of `now` after Tick (the initial now is 60)
+  Nows,            \* values of `now` after Tick (the initial now is 60)
+  WithUpdate       \* BOOLEAN: Client.Update is among the calls
 
 VARIABLES scen, cl, cnt, now, ncalls, started, act
 vars == <<scen, cl, cnt, now, ncalls, started, act>>
@@ -80,6 +82,18 @@ VerifyCall(h, s) ==
   /\ ncalls' = ncalls + 1
   /\ UNCHANGED <<scen, now, started>>
 
+\* Client.Update(now): verify the primary's latest block if it is above the latest trusted one
+UpdateStep(s) ==
+  /\ started /\ cl.store # {} /\ ncalls < MaxCalls /\ WithUpdate
+  /\ LET r == UpdateCall(SC, cl, cnt, now, s) IN
+     /\ cl' = r.x.cl
+     /\ cnt' = r.x.cnt
+     /\ act' = [name |-> "Update", h |-> 0, now |-> now, sched |-> s, res |-> r.res, obs |-> r.x.reqs,
+                ev |-> r.x.ev, att |-> r.x.att, pre |-> Hids(cl.store), post |-> Hids(r.x.cl.store),
+                primary |-> r.x.cl.primary]
+  /\ ncalls' = ncalls + 1
+  /\ UNCHANGED <<scen, now, started>>
+
 Tick ==
   /\ started /\ now = 60 /\ ncalls < MaxCalls
   /\ now' \in Nows
@@ -88,6 +102,7 @@ Tick ==
 
 Next == \/ \E s \in Perms : Start(s)
         \/ \E h \in 1..H, s \in Perms : VerifyCall(h, s)
+        \/ \E s \in Perms : UpdateStep(s)
         \/ Tick
 Spec == Init /\ [][Next]_vars
 
@@ -96,29 +111,30 @@ Spec == Init /\ [][Next]_vars
 CView == <<scen, cl, cnt, now, ncalls, started, [act EXCEPT !.sched = << >>]>>
 
 \* ---------------------------------------------------------------- properties (C09)
+IsCall == act.name \in {"Verify", "Update"}
 \* NewClient stores nothing but the header named by the trust options
 TrustRootOnly == act.name = "Start" => act.post \subseteq {RootName[scen.root]}
 
 \* every header stored by a call is reachable from the headers trusted before it by steps
 \* that satisfy the statement's conditions, through blocks the client was shown
-StoreSound == act.name = "Verify" => Unsound(SC, act.pre, act.post, act.obs, act.now) = {}
+StoreSound == IsCall => Unsound(SC, act.pre, act.post, act.obs, act.now) = {}
 
 \* a header stored by forward verification was returned, identically, by a witness
-WitnessConfirmed == act.name = "Verify" => Unconfirmed(SC, act.pre, act.post, act.obs, act.primary) = {}
+WitnessConfirmed == IsCall => Unconfirmed(SC, act.pre, act.post, act.obs, act.primary) = {}
 
 \* when every witness was silent / sent an error / sent a different header, nothing is stored
 NoConfirmationFromSilence ==
-  (act.name = "Verify" /\ act.post # act.pre
+  (IsCall /\ act.post # act.pre
      /\ \E b \in Variants(SC, DOMAIN SC.blocks, act.post \ act.pre) : SC.blocks[b].h > MinH(SC, act.pre))
   => \E i \in DetResponses(act.obs, act.primary) :
         IsBlk(SC, act.obs[i].r) /\ SC.blocks[act.obs[i].r].hid \in act.post \ act.pre
 
 \* a witness that can back a different header => attack error with evidence
-AttackReported == act.name = "Verify" => AttackHandled(act.att, act.res, {e.to : e \in Range(act.ev)})
+AttackReported == IsCall => AttackHandled(act.att, act.res, {e.to : e \in Range(act.ev)})
 
 \* an attack error is never followed by storing the header
-AttackStoresNothing == (act.name = "Verify" /\ act.res # Nil) => act.post = act.pre
+AttackStoresNothing == (IsCall /\ act.res # Nil) => act.post = act.pre
 
 \* the store only grows, the witness list never contains a name twice
-StoreMonotone == act.name = "Verify" => act.pre \subseteq act.post
+StoreMonotone == IsCall => act.pre \subseteq act.post
 =============================================================================
